@@ -4,24 +4,26 @@ import MindsVerif.Lemmas.Codec
 import MindsVerif.Gen.Reserved
 import MindsVerif.Gen.RenderPaths
 /-!
-# C07 — constants render as inert, exact literals in every output path
+# C07 — constants render as inert, exact literals
 
-* SQLAlchemy path: `renderLiteral mysql` is `quote_literal(value, dialect)` behind the
-  `LiteralCompiler.render_literal_value` override.  `C07_mysql` (all strings): the MySQL rendering is read back
-  by the MySQL reader.  `C07_std` (unbounded, all strings): a standard-SQL string-literal reader (`stdLex`:
-  PostgreSQL / SQLite / MSSQL / Oracle) reads the rendered text back as exactly the value and stops exactly
-  at its end, whatever follows; `C07_structure`: hence what follows the literal is the same for every
-  value.  `C07_witness_mysql*`: regression examples of the repaired defect (standard rendering read by MySQL).
-* `to_string()` path: `Constant.get_string` against the library's own MindsDB lexer: `C07_tostring_partial`
-  (values in which every backslash is followed by a character other than `\ ' "`): the token ends exactly
-  at the end of the printed literal; false in general: `C07_witness_tostring`.
-* [review] doc fix: the previous bullet describes the printer BEFORE /repo 2843e02 (history).  For the live code the
-  `to_string()` theorem is `C07_tostring_codec` (all strings, library reader).
-* [review] NOT covered by any theorem or stream of C07: the DEFAULT `SqlalchemyRender.get_string(ast)`
-  (`with_failback=True`) returns `str(ast)` — the `to_string()` text, library codec `\'` — for ANY dialect whenever
-  rendering raises `SQLAlchemyError` / `NotImplementedError` (e.g. a 4-part table name).  A standard-SQL target does
-  not read that codec: see `C07_review_fallback_witness` (checked on sqlite3: `SELECT '\' , 1 -- ' FROM a.b.c.d`
-  returns the two columns `\` and `1`).  The check calls `get_string(..., with_failback=False)` only.
+Output paths of a constant and what is proved about each (current tree):
+
+* **SQLAlchemy rendering** (`get_string(..., with_failback=False)` and the non-raising case of the default call):
+  `renderLiteral backslash` = `quote_literal(value, dialect)` behind the `LiteralCompiler` override.  `C07_std` /
+  `C07_mysql` (all strings): the standard-SQL reader `stdLex` (PostgreSQL / SQLite / MSSQL / Oracle) resp. the MySQL
+  reader `mysqlLex` reads the rendered text back as exactly the value and stops exactly behind it;
+  `C07_codec_for_target` packages both; `C07_structure`: what follows the literal does not depend on the value.
+  `C07_paths` (kernel-evaluated on probed data): WHICH codec every way of constructing the renderer uses — equal to
+  what the target engine needs for every path but `name:Snowflake` (open finding: the Oracle dialect stands in for
+  Snowflake, which reads backslash escapes).
+* **`to_string()`** read by the library's own parsers: `C07_tostring_codec` (all strings, any dialect).
+* **fallback of the default `get_string(ast)`** (`with_failback=True`): when the renderer refuses a tree the caller gets
+  `str(ast)`, i.e. the LIBRARY spelling (`\'`, `\\`) for whatever target.  `C07_fallback_mysql` (all strings): a
+  MySQL-family target reads it back; `C07_fallback_std_partial`: a standard-SQL target reads it back exactly for
+  values without quote and backslash; `C07_review_fallback_witness`: for the other values the literal ends early
+  (open finding, design conflict with the fallback contract of C17).  The check drives this path too.
+* history (`C07_old_*`): the printer before /repo 2843e02 and the standard rendering read by MySQL before 8d4e738 —
+  regression examples about the OLD variants.
 -/
 namespace MindsVerif.Props.C07
 open MindsVerif MindsVerif.Py MindsVerif.Lex MindsVerif.Denote MindsVerif.Literal MindsVerif.LitRender MindsVerif.Gen
@@ -52,18 +54,18 @@ def attack : List Char := ['\\', '\'', ' ', 'O', 'R', ' ', '1', '=', '1', ' ', '
 
 /-! regression examples for the repaired defect (fixed: 8d4e738): the *standard* rendering must not be used for
 MySQL — `\' OR 1=1 -- ` rendered as `'\'' OR 1=1 -- '` is read by MySQL as `'` followed by ` OR 1=1 -- '` -/
-theorem C07_witness_mysql : ¬ C07_full (renderLiteral false) mysqlLex := by
+theorem C07_old_witness_mysql : ¬ C07_full (renderLiteral false) mysqlLex := by
   intro h
   have := h attack [] (by decide)
   revert this; decide
 
-theorem C07_witness_mysql_value :
+theorem C07_old_witness_mysql_value :
     mysqlLex (renderLiteral false attack) = some (['\''], [' ', 'O', 'R', ' ', '1', '=', '1', ' ', '-', '-', ' ', '\'']) ∧
     mysqlLex (renderLiteral true attack) = some (attack, []) := by
   decide
 
 /-- History (codec before 2843e02): `to_string()` against the old MindsDB lexer, partial -/
-theorem C07_tostring_partial (v rest : List Char) (hv : encOK v = true) (hr : rest.head? ≠ some '\'') :
+theorem C07_old_tostring_partial (v rest : List Char) (hv : encOK v = true) (hr : rest.head? ≠ some '\'') :
     (lexQuote .mindsdb (constantToString v ++ rest)).map (fun t => (t.src, t.rest)) =
       some (constantToString v, rest) := by
   obtain ⟨e1, e2, _⟩ := enc_main v hv
@@ -77,6 +79,22 @@ dialect) reads the printed literal back as exactly the value and stops exactly b
 theorem C07_tostring_codec (v rest : List Char) (hr : rest.head? ≠ some '\'') :
     Codec.readString (Codec.constantToString v ++ rest) = some (v, rest) :=
   Codec.roundtrip v rest hr
+
+/-! ## the fallback path of the default `get_string(ast)`: `str(ast)` handed to the target -/
+
+/-- **fallback, MySQL-family targets, all strings**: the library spelling is read back as exactly the value -/
+theorem C07_fallback_mysql : C07_full Codec.constantToString mysqlLex :=
+  fun v rest hr => Codec.fallback_mysql v rest hr
+
+/-- **fallback, standard-SQL targets, partial**: exactly for values without a quote and without a backslash (the
+complement is the open finding; witness below) -/
+theorem C07_fallback_std_partial (v rest : List Char) (hr : rest.head? ≠ some '\'')
+    (h1 : ∀ c ∈ v, c ≠ '\'') (h2 : ∀ c ∈ v, c ≠ '\\') :
+    stdLex (Codec.constantToString v ++ rest) = some (v, rest) :=
+  Codec.fallback_std v rest hr h1 h2
+
+example : stdLex (Codec.constantToString ['a', ' ', '%', ';', '-', '-'] ++ [')']) = some (['a', ' ', '%', ';', '-', '-'], [')']) := by
+  decide
 
 -- [review] the cross pairing that the fallback path of `SqlalchemyRender.get_string` produces (library printer, read by
 -- a standard-SQL engine) does NOT satisfy the full statement: the value `' , 1 -- ` is printed `'\' , 1 -- '`, which a
@@ -99,7 +117,7 @@ example : Codec.readString (Codec.constantToString attack ++ [';']) = some (atta
 example : mysqlLex (renderLiteral true attack ++ [')']) = some (attack, [')']) := by decide
 
 /-- regression example (fixed: 2843e02): with the old printer the same value ended the literal early -/
-theorem C07_witness_tostring :
+theorem C07_old_witness_tostring :
     (lexQuote .mindsdb (constantToString attack)).map (fun t => t.src) = some ['\'', '\\', '\\', '\''] := by
   decide
 
@@ -122,15 +140,12 @@ theorem C07_codec_for_target (backslash : Bool) :
 def mismatches : List String :=
   (RenderPaths.paths.filter fun p => p.2.2.1 != p.2.2.2).map (·.1)
 
-/-- **every construction path uses the codec of its target**, except exactly the known finding KF-C07-4 (dialect
-classes of the MariaDB family, `dialect.name == 'mariadb'`, get the standard codec); two-state so that the repair
-(`docs/proposed_fixes/C07_2.diff`) lands without an edit.  A path that loses its codec (e.g. dialect classes when the
-decision is taken only for string names) or a new unsafe path breaks this obligation. -/
-theorem C07_paths :
-    RenderPaths.odd = [] ∧
-    (mismatches = [] ∨
-     mismatches = ["url:mariadb", "url:mariadb+mariadbconnector", "url:mariadb+mysqldb", "url:mariadb+pymysql"]) := by
-  decide
+/-- **every construction path uses the codec of its target**, except exactly `name:Snowflake` (open finding: the
+library maps the name to SQLAlchemy's Oracle dialect, hence the standard codec, while Snowflake reads backslash escapes
+inside single-quoted constants; not verifiable offline).  The MariaDB dialect classes, formerly in this list, are
+repaired (/repo 27dc99c).  A path that loses its codec (e.g. dialect classes when the decision is taken only for string
+names) or a new unsafe path breaks this obligation. -/
+theorem C07_paths : RenderPaths.odd = [] ∧ mismatches = ["name:Snowflake"] := by decide
 
 /-- the probe covered each kind of path -/
 example : (RenderPaths.paths.map (·.1)).contains "name:mysql" ∧ (RenderPaths.paths.map (·.1)).contains "class:mysql.pymysql" ∧
